@@ -23,7 +23,7 @@ func c04ConcStage(children, cases int) Stage {
 
 // c04BulkStage: a batch of 1500 entities with an invalid entity beyond position 1000 is refused without any effect.
 func c04BulkStage(children, cases int) Stage {
-	return Stage{Name: "bulk", Scenario: "sdbulk", Args: "props=C04", Children: children, Cases: cases, Timeout: 10 * time.Minute}
+	return Stage{Name: "bulk", Scenario: "sdbulk", Args: "props=C04,huge=1", Children: children, Cases: cases, Timeout: 10 * time.Minute}
 }
 
 func init() {
